@@ -200,8 +200,10 @@ def leg_files_special(ns, node, res, spec):
     """BOM under utf-8 and latin-1/binary, multi-byte text, random longer Unicode inputs, invalid UTF-8."""
     rng = random.Random(spec['seed'] * 101 + spec['shard'])
     samples = [('utf-8', '﻿a,é\r\nb,"x\ny"\r\n'), ('latin-1', 'ï»¿a,b\nc'), ('utf-8', '﻿'), ('latin-1', 'ï»¿'),
-               ('utf-8', 'é,"€\n😀",z\r\nq'), ('utf-8', 'a,b\n﻿c,d'), ('latin-1', 'a\xff,\xe9\r\n"\xa0",x')]
-    alpha = ['a', 'b', '"', '"', ',', ',', '\n', '\r', '\r\n', '#', ' ', 'é', '€', '😀', '""', 'x y', '﻿']
+               ('utf-8', 'é,"€\n😀",z\r\nq'), ('utf-8', 'a,b\n﻿c,d'), ('latin-1', 'a\xff,\xe9\r\n"\xa0",x'),
+               # valid boundary code points: the replacement character itself, the ends of every UTF-8 length class, NUL
+               ('utf-8', 'a,\ufffd\nb,c\n'), ('utf-8', '\ufffd'), ('utf-8', 'x\uffff,\U0010ffff\r\n"\ufffd""",\x00'), ('utf-8', '\x7f\x80,\u07ff\u0800\n\ud7ff,\ue000')]
+    alpha = ['a', 'b', '"', '"', ',', ',', '\n', '\r', '\r\n', '#', ' ', 'é', '€', '😀', '""', 'x y', '﻿', '\ufffd', '\uffff', '\U0010ffff', '\x80', '\u0800', '\x00']
     for _ in range(spec['n']):
         samples.append((rng.choice(['utf-8', 'utf-8', 'latin-1']), ''.join(rng.choice(alpha) for _ in range(rng.randrange(1, 60)))))
     reqs, meta = [], []
